@@ -82,3 +82,29 @@ Proof. unfold gen_add_module_targets. apply flat_map_app. Qed.
 (* whenever something is registered through the auto-profiling hook the profiler is switched on (by count) *)
 Theorem imported_enables it : fst (gen_imported_targets it) <> [] -> snd (gen_imported_targets it) = true.
 Proof. destruct it; cbn; congruence. Qed.
+
+(* ---- what a registration achieves in the core ---------------------------------------------------- *)
+From LP Require Import Trace.Stats Trace.LabelMono.
+
+Lemma reg_lines_registers h c lines : forall cm hm,
+  (exists l, In l lines /\ mem cm (LH h l) = false) ->
+  mem (snd (reg_lines h c lines cm hm)) c = true.
+Proof.
+  induction lines as [|l t IH]; intros cm hm [l0 [Hin Hm]]; [destruct Hin|].
+  cbn [reg_lines]. destruct (mem cm (LH h l)) eqn:E.
+  - destruct Hin as [->|Hin]; [congruence|]. apply IH. exists l0. split; assumption.
+  - apply mem_keys. apply reg_lines_keeps. apply mem_keys. unfold mem. rewrite gss. reflexivity.
+Qed.
+
+(* add_function on a code object that brings at least one line hash the profiler has not seen makes that code object
+   a key of code_hash_map - i.e. it gets its own entry in every later report.  (When ALL its line hashes are already
+   taken - byte-identical code after colliding NOP paddings - it does not: the known C04 padding finding.) *)
+Theorem registration_creates_entry codes st cb ca :
+  (exists l, In l (c_lines (nth_code codes ca)) /\ mem (cmap st) (LH (c_hash (nth_code codes ca)) l) = false) ->
+  mem (chm (add_function codes st cb ca)) ca = true.
+Proof.
+  intros H. unfold add_function. destruct (pad_step _ _ _) as [d' k'].
+  destruct (reg_lines _ _ _ _ _) as [cm hm] eqn:Er. cbn [chm].
+  replace hm with (snd (reg_lines (c_hash (nth_code codes ca)) ca (c_lines (nth_code codes ca)) (cmap st) (chm st))) by (rewrite Er; reflexivity).
+  apply reg_lines_registers. exact H.
+Qed.
